@@ -28,7 +28,8 @@ LEVEL_TEXT = 'Every listed re-description of every listed crystal with three dat
 LEVEL_NOTE = 'Data functions hash rounded geometric fingerprints (1e-4): two descriptions get the same numbers because they have the same geometry, not because of any index correspondence.'
 
 UNI3 = [[[1, 1, 0], [0, 1, 0], [0, 0, 1]], [[1, 0, 0], [0, 1, 1], [0, 0, 1]], [[1, 0, 0], [1, 1, 0], [1, 0, 1]], [[0, 1, 0], [0, 0, 1], [1, 0, 0]],
-        [[1, 2, 0], [0, 1, 2], [0, 0, 1]], [[-1, 0, 0], [0, 1, 0], [0, 0, -1]]]
+        [[1, 2, 0], [0, 1, 2], [0, 0, 1]], [[-1, 0, 0], [0, 1, 0], [0, 0, -1]],
+        [[2, -1, 0], [-1, 1, 0], [-2, -1, 1]]]      # last: inverse lattice with very unequal row / column norms
 UNI2 = [[[1, 1], [0, 1]], [[1, 0], [1, 1]], [[0, 1], [-1, 0]], [[1, 2], [0, 1]]]
 HNF3 = [[[2, 0, 0], [0, 1, 0], [0, 0, 1]], [[1, 0, 0], [0, 1, 0], [0, 0, 2]], [[1, 0, 0], [0, 2, 0], [1, 1, 1]][:3], [[2, 0, 0], [1, 1, 0], [0, 0, 1]]]
 HNF2 = [[[2, 0], [0, 1]], [[1, 0], [1, 2]]]
